@@ -568,7 +568,7 @@ class RParser:
             if self.peek()[0] == "op" and self.peek()[1] in ("=", "+=", "-=", "*=", "|=", "&="):
                 op = self.eat()[1]
                 rhs = self.parse_expr()
-                if not self.at(closer):
+                if not self.done() and not self.at(closer):
                     self.eat(";")
                 stmts.append(("assign", e, op, rhs))
                 continue
